@@ -79,6 +79,11 @@ int main(void)
 			// then initialise it again on the same lzma_stream without lzma_end; the real run follows
 			alarm(kind == 1 ? 10 : 60);
 			unsigned k = 1 + rnd() % 17, style = rnd() % 3; size_t pip = 0; uint8_t tmp[4096];
+			if (kind == 1 && rnd() % 2 == 0) {
+				// the earlier use had other options: a smaller block size (same number of threads) or another preset
+				lzma_mt m0 = mt; if (rnd() % 2) m0.block_size = 4096; else m0.preset = (mt.preset + 1) % 7;
+				if (lzma_stream_encoder_mt(&s, &m0) != LZMA_OK) { printf("%d -\n", 77); fflush(stdout); lzma_end(&s); alarm(0); if (have_f) lzma_filters_free(filters, NULL); continue; }
+			}
 			for (unsigned c = 0; c < k; c++) {
 				size_t il = style == 0 ? (n - pip) : rnd() % 3000; if (il > n - pip) il = n - pip;
 				size_t ol = style == 0 ? 13 : rnd() % 4096;
